@@ -150,12 +150,12 @@ def check(ctx):
     ctx.samples.append({"calls": [script[1], script[len(script) // 2], script[-1]]})
     t = ctx.drive(drv, script, "printf")
     bad = ctx.judge("PrintfTrace", [t], shards=16)
+    for b in bad: b["driver"] = "drv_printf"
     # the second build configuration (size-optimised, plain char unsigned) on part of the executions
     ta = ctx.drive(build(ctx, alt=True), core.subset_executions(script, ctx.seed, 1.0 if ctx.thorough else 0.34), "printf_alt")
     bada = ctx.judge("PrintfTrace", [ta], shards=16)
     for b in bada: b["driver"] = "drv_printf@alt"
     bad += bada
-    for b in bad: b["driver"] = "drv_printf"
     ctx.report(bad)
     ctx.assumptions += [
         "LP64 System V ABI: integer and pointer arguments travel in 8-byte slots; int-sized arguments are passed promoted (garbage in the upper half of the slot must be ignored)",
